@@ -29,6 +29,7 @@ type genOpts struct {
 	FailingReqs bool // requests that are expected to fail
 	ColdStart   bool
 	NoUpdates   bool
+	UpdateHeavy bool // a third of the requests are UpdateContainer, many returning to earlier resources
 	ExclHeavy   bool // many Guaranteed whole-CPU containers in ordinary namespaces
 	PinAlways   bool // pinCPU/pinMemory always on
 	NoHideHT    bool
@@ -261,6 +262,9 @@ func genOps(t *rapid.T, o genOpts, topo *vfkit.Topo, genCfg func(t *rapid.T) *vh
 	kinds := []string{"pod", "pod", "create", "create", "create", "create", "start", "start", "stop", "stop", "remove", "remove", "stoppod", "removepod", "sync", "recreate"}
 	if !o.NoUpdates {
 		kinds = append(kinds, "update", "update")
+		if o.UpdateHeavy {
+			kinds = append(kinds, "update", "update", "update", "update", "update", "update")
+		}
 	}
 	if o.Reconfig && genCfg != nil {
 		kinds = append(kinds, "reconfig")
@@ -282,7 +286,18 @@ func genOps(t *rapid.T, o genOpts, topo *vfkit.Topo, genCfg func(t *rapid.T) *vh
 			op.Ctr = genCtr(t, o, topo, qos, rapid.SampledFrom(ctrNames).Draw(t, "cname"))
 			op.Undo = rapid.Bool().Draw(t, "undo")
 		case "update":
-			if rapid.IntRange(0, 3).Draw(t, "identical") != 0 {
+			hi := 5
+			if o.UpdateHeavy {
+				hi = 3
+				op.A = rapid.IntRange(0, 2).Draw(t, "updTarget") // few targets: updates hit the same containers again
+			}
+			switch rapid.IntRange(0, hi).Draw(t, "identical") {
+			case 0: // the resources the container already has
+			case 1:
+				op.B = 2 // back to the resources it was created with
+			case 2:
+				op.B = 3 // back to the resources it had before its last update
+			default:
 				qos := rapid.SampledFrom([]string{"guaranteed", "burstable"}).Draw(t, "updQos")
 				op.Ctr = genCtr(t, o, topo, qos, "x")
 			}
